@@ -24,14 +24,17 @@ MANIFEST = {
              'set operations (exhaustive over all pairs of repetition-free sequences of <= 3/4 labels, int/str/mixed-object labels, every operand kind), util kernels '
              'called directly, Series op Series (exhaustive small + random: int/str/object/tuple/hierarchical labels, int/float/bool cells, arithmetic, comparison, '
              'logical and reflected operators), Series with scalar/array, Frame op Frame over every pair of block layouts of <= 2/3 columns and random shapes, '
-             'Frame op Series on both axes, Frame with scalar/array, Frame.reindex over every layout.'),
+             'Frame op Series on both axes, Frame with scalar/array, Frame.reindex over every layout; hierarchies whose branches share one inner Index object; NaN / NaT labels '
+             '(ordinary labels only) with Index.equals against its model; an operator matrix decided on the Python side against NumPy-scalar references: EVERY binary operator '
+             'method, direct and reflected, of Series, Frame and Frame.via_T with scalar / tuple / list / array / Series operands on several layouts, with pairwise '
+             'distinguishable operand values; datetime indices of different units.'),
     'note': ('Trusted / assumed: the Coq kernel; the hand-written models (tied to the code only by the differential runs of this check and by the regenerated '
              'constants and the regenerated util.resolve_dtype used for the object-path and NaN-fill dtype decisions); ORACLE models of NumPy (np.union1d / intersect1d / '
              'setdiff1d as sort+dedup+filter; element-wise operators on exact integers, dyadic rationals, Booleans and NaN; sorted() fails exactly on mixed number/str '
              'label sets); label equality = structural equality of the observed values (no label set mixes 1 / 1.0 / True); the hash order of an unsortable frozenset is '
              'not predicted (such results are compared as label->value maps). Partial: TypeBlocks._ufunc_binary_operator (block_compatible / reblock / values paths) is '
              'proved layout-independent for a TypeBlocks operand (C06_tb_binop_layout_independent); the 1-D array / scalar operand paths are modelled and observed only; dtype of results is observed only through the value classes (int / float / bool); operators pow, '
-             'shifts, matmul, string cells, datetime cells and NaN labels are outside the generators. Three open findings are listed in known/C06.jsonl (D12 comparisons, D12 logical operators, zero-column results); two more (resize_blocks with one axis '
+             'shifts, matmul, string cells, datetime cells and NaN labels are outside the generators. Four open findings are listed in known/C06.jsonl (D12 comparisons, D12 logical operators, zero-column results, datetime indices of different units with an unsorted operand); two more (resize_blocks with one axis '
              'without common labels: fix 658b4ce; the .values fallback of incompatible layouts coercing every column: fix e1c1c73) are repaired and kept as regression classes.'),
     'technique': 'refinement proof (decision-procedure / block-walking model = set algebra / label lookup) + differential correspondence evaluated inside Coq',
 }
@@ -1261,6 +1264,207 @@ def nan_label_cases(ctx):
                                            py_fail=fail, tags=dict(tags, op=opname, container=container), nontrivial=not both)
 
 
+F_DTUNIT = 'C06-datetime-unit-alignment-unsorted'
+
+OPERATOR_TABLE = None
+
+
+def _operator_table():
+    """Every binary operator dunder of the operator interfaces with the NumPy function it must apply:
+    name -> (dunder, fn(cell, other), kind).  Reflected forms apply fn(other, cell)."""
+    import operator as o
+    global OPERATOR_TABLE
+    if OPERATOR_TABLE is None:
+        base = {'add': (o.add, 'arith'), 'sub': (o.sub, 'arith'), 'mul': (o.mul, 'arith'), 'truediv': (o.truediv, 'arith'),
+                'floordiv': (o.floordiv, 'arith'), 'mod': (o.mod, 'arith'), 'pow': (o.pow, 'pow'),
+                'lshift': (o.lshift, 'shift'), 'rshift': (o.rshift, 'shift'),
+                'and': (o.and_, 'bits'), 'xor': (o.xor, 'bits'), 'or': (o.or_, 'bits'),
+                'lt': (o.lt, 'cmp'), 'le': (o.le, 'cmp'), 'eq': (o.eq, 'cmp'), 'ne': (o.ne, 'cmp'), 'gt': (o.gt, 'cmp'), 'ge': (o.ge, 'cmp')}
+        table = {}
+        for name, (fn, kind) in base.items():
+            table[name] = (f'__{name}__', fn, kind, False)
+            if kind != 'cmp':
+                table['r' + name] = (f'__r{name}__', (lambda f: (lambda cell, other: f(other, cell)))(fn), kind, True)
+        OPERATOR_TABLE = table
+    return OPERATOR_TABLE
+
+
+def operator_matrix_cases(ctx):
+    """EVERY binary operator method (direct and reflected, as far as the interface defines it) of Series, Frame (axis 0)
+    and Frame.via_T (axis 1) with a scalar / tuple / list / 1-D array / Series operand (Series: same labels permuted, and
+    partially overlapping for the arithmetic operators), on several block layouts, with cells and operands that make
+    the operators pairwise distinguishable (no even division, non-commutative) -- against the per-label reference
+    fn(cell, other) computed with NumPy scalars of the cell's own dtype.  Values AND result dtype kind are compared."""
+    import static_frame as sf
+    rng = ctx.rng
+    table = _operator_table()
+    rows, cols = ('x', 'y', 'z'), ('a', 'b', 'c')
+    cells_int = {'a': [7, -5, 11], 'b': [9, 13, -7], 'c': [5, 17, 3]}
+    cells_pos = {'a': [7, 5, 11], 'b': [9, 13, 6], 'c': [5, 17, 3]}       # shifts / pow / bit operators: non-negative cells
+    others = {'arith': [2, -3, 4], 'cmp': [7, 13, 4], 'bits': [6, 3, 12], 'shift': [1, 2, 3], 'pow': [2, 3, 1]}
+    layouts3 = list(zoo.layouts_for([np.int64] * 3))
+    mixed = [np.int64, np.float64, np.int64]
+
+    def defines(obj, dunder):
+        return any(dunder in k.__dict__ for k in type(obj).__mro__)     # (type itself has __or__/__ror__)
+
+    def scalar_of(dt, v):
+        return np.float64(v) if dt == np.float64 else np.int64(v)
+
+    def expected(fn, cell, dt, other):
+        if other is None:
+            return float('nan'), 'f'
+        import warnings
+        with warnings.catch_warnings():
+            warnings.simplefilter('ignore')
+            r = fn(scalar_of(dt, cell), np.int64(other) if not isinstance(other, float) else np.float64(other))
+        return r.item(), np.asarray(r).dtype.kind
+
+    def same(v, w):
+        return (v != v and w != w) or (v == w and type(v) is type(w)) or (v == w and isinstance(v, (int, float)) and isinstance(w, (int, float)) and not isinstance(v, bool) and not isinstance(w, bool) and float(v) == float(w))
+
+    def run(container, target, dunder, operand, cellmap, dtypes, other_at, partial, desc, tags, axis_labels):
+        """other_at(row label, column label) -> the operand value paired with that cell (None: label missing)."""
+        name, fn = tags['op'], table[tags['op']][1]
+        fail = None
+        try:
+            import warnings
+            with warnings.catch_warnings():
+                warnings.simplefilter('ignore')
+                r = getattr(target, dunder)(operand)
+            if container == 'series':
+                got = {(l, None): (v, r.dtype.kind) for l, v in zip(lit.labels(r.index), lit.array_vals(r.values))}
+            else:
+                got = {}
+                for c, a in zip(lit.labels(r.columns), r.iter_array(axis=0)):
+                    for l, v in zip(lit.labels(r.index), lit.array_vals(a)):
+                        got[(l, c)] = (v, a.dtype.kind)
+            want = {}
+            for (rl, cl) in axis_labels:
+                if (rl, cl) in cellmap:
+                    o_ = other_at(rl, cl)
+                    want[(rl, cl)] = expected(fn, cellmap[(rl, cl)], dtypes[cl], o_)
+                else:
+                    want[(rl, cl)] = (float('nan'), 'f')
+            if set(got) != set(want):
+                fail = f'result labels {sorted(map(str, got))[:6]}..., expected {sorted(map(str, want))[:6]}...'
+            else:
+                for k, (w, wk) in want.items():
+                    v, vk = got[k]
+                    if not same(v, w) or (not partial and vk != wk):
+                        fail = f'at {k}: {v!r} (dtype kind {vk}), {name} prescribes {w!r} (kind {wk})'
+                        break
+            obs = repr(sorted((str(k), v[0]) for k, v in got.items())[:9])
+        except Exception as e:  # noqa
+            obs, fail = type(e).__name__, f'{dunder} raised {type(e).__name__}: {e}'
+        ctx.count(f'opmatrix:{container}', f'opmatrix:op:{name}', f'opmatrix:operand:{tags["operand"]}')
+        return Case(f'api:{container}:operator-matrix', dict(desc, observed=obs), py_fail=fail, tags=tags)
+
+    def operands(kind, labels, n):
+        """(operand kind, python object, value-by-label or positional list, partial?)"""
+        vals = others[kind][:n]
+        out = [('scalar', vals[0], None, False), ('tuple', tuple(vals), vals, False), ('list', list(vals), vals, False),
+               ('array', np.array(vals, dtype=np.int64), vals, False)]
+        perm = list(range(n))
+        rng.shuffle(perm)
+        out.append(('series-permuted', sf.Series(np.array([vals[i] for i in perm], dtype=np.int64), index=[labels[i] for i in perm]),
+                    dict(zip(labels, vals)), False))
+        if kind == 'arith':
+            out.append(('series-partial', sf.Series(np.array([vals[0], 5], dtype=np.int64), index=[labels[-1], 'w']),
+                        {labels[-1]: vals[0], 'w': 5}, True))
+        return out
+
+    for name, (dunder, fn, kind, reflected) in table.items():
+        pos = kind in ('shift', 'pow', 'bits')
+        src = cells_pos if pos else cells_int
+        # ---- Series
+        s = sf.Series(np.array(src['a'], dtype=np.int64), index=rows)
+        if defines(s, dunder):
+            for okind, obj, byl, partial in operands(kind, rows, 3):
+                labels = list(rows) + (['w'] if partial else [])
+                if isinstance(byl, dict):
+                    at = lambda rl, cl, byl=byl: byl.get(rl)
+                elif byl is None:
+                    at = lambda rl, cl, obj=obj: obj
+                else:
+                    at = lambda rl, cl, byl=byl: byl[rows.index(rl)]
+                yield run('series', s, dunder, obj, {(r_, None): v for r_, v in zip(rows, src['a'])}, {None: np.int64}, at, partial,
+                          {'call': f'Series({src["a"]}, index={rows}).{dunder}({okind} {plain(lit.array_vals(obj.values)) if okind.startswith("series") else plain(obj)!r})'},
+                          {'op': name, 'operand': okind, 'container': 'series', 'reflected': reflected}, [(l, None) for l in labels])
+        # ---- Frame (axis 0: operand against the columns) and Frame.via_T (axis 1: operand against the index)
+        frames = [(lay, [np.int64] * 3) for lay in rng.sample(layouts3, 3)] + [(((1, False), (1, True), (1, False)), mixed)]
+        for lay, dts in frames:
+            colarrs = [np.array(src[c], dtype=dt) for c, dt in zip(cols, dts)]
+            f = zoo.frame_from_columns(colarrs, lay, index=make_index(rows, 'str'), columns=make_index(cols, 'str'))
+            cellmap = {(r_, c): src[c][i] for c in cols for i, r_ in enumerate(rows)}
+            dtypes = dict(zip(cols, dts))
+            for axis1 in (False, True):
+                target = f.via_T if axis1 else f
+                if not defines(target, dunder):
+                    continue
+                axis = rows if axis1 else cols
+                if pos and np.float64 in dts:
+                    continue                                   # shifts / bit operators / integer pow are for integer cells
+                for okind, obj, byl, partial in operands(kind, axis, 3):
+                    extra = ['w'] if partial else []
+                    labels = [(r_, c) for r_ in list(rows) + (extra if axis1 else []) for c in list(cols) + ([] if axis1 else extra)]
+                    pick = (lambda rl, cl: rl) if axis1 else (lambda rl, cl: cl)
+                    if isinstance(byl, dict):
+                        at = lambda rl, cl, byl=byl, pick=pick: byl.get(pick(rl, cl))
+                    elif byl is None:
+                        at = lambda rl, cl, obj=obj: obj
+                    else:
+                        at = lambda rl, cl, byl=byl, pick=pick, axis=axis: byl[axis.index(pick(rl, cl))]
+                    yield run('frame.via_T' if axis1 else 'frame', target, dunder, obj, cellmap, dtypes, at, partial,
+                              {'call': f'A{".via_T" if axis1 else ""}.{dunder}({okind} {plain(lit.array_vals(obj.values)) if okind.startswith("series") else plain(obj)!r})',
+                               'A': frame_desc(f)},
+                              {'op': name, 'operand': okind, 'container': 'frame.via_T' if axis1 else 'frame', 'reflected': reflected,
+                               'layout': zoo.layout_str(lay)}, labels)
+
+
+def datetime_unit_cases(ctx):
+    """Aligning datetime64 indices of DIFFERENT units (IndexDate with IndexYearMonth): reference by label (first-of-month
+    days denote the month label).  The operand whose unit differs from the union's is located through a Boolean mask
+    (index.py:249-253), which answers positions in index order, not key order: wrong pairing when that operand is unsorted."""
+    import static_frame as sf
+    D = lambda xs: sf.IndexDate(xs)
+    M = lambda xs: sf.IndexYearMonth(xs)
+    pool = [('a-unsorted-D + b-unsorted-M', ['2020-03-01', '2020-01-01', '2020-02-01'], D, [1, 2, 3], ['2020-03', '2020-02'], M, [20, 10]),
+            ('sorted operands', ['2020-01-01', '2020-02-01', '2020-03-01'], D, [2, 3, 1], ['2020-02', '2020-03'], M, [10, 20]),
+            ('left unsorted, right sorted', ['2020-03-01', '2020-01-01', '2020-02-01'], D, [1, 2, 3], ['2020-02', '2020-03'], M, [10, 20]),
+            ('same labels, right unsorted', ['2020-01-01', '2020-02-01'], D, [5, 6], ['2020-02', '2020-01'], M, [70, 80])]
+    for name, la, ca, va, lb, cb, vb in pool:
+        for swap in (False, True):
+            (xl, xc, xv), (yl, yc, yv) = ((la, ca, va), (lb, cb, vb)) if not swap else ((lb, cb, vb), (la, ca, va))
+            sx, sy = sf.Series(np.array(xv), index=xc(xl)), sf.Series(np.array(yv), index=yc(yl))
+            key = lambda s_: str(np.datetime64(s_, 'M'))
+            dx, dy = {key(l): v for l, v in zip(xl, xv)}, {key(l): v for l, v in zip(yl, yv)}
+            spec = {k: (dx[k] + dy[k] if k in dx and k in dy else None) for k in set(dx) | set(dy)}
+            right_sorted = [key(l) for l in yl] == sorted(key(l) for l in yl)
+            tags = {'kind': 'datetime-units', 'op': 'add', 'container': 'series'}
+            if not right_sorted:
+                tags['finding'] = F_DTUNIT          # by construction: units differ and the right (other-unit) operand is unsorted
+            fail = None
+            try:
+                r = sx + sy
+                got = {str(np.datetime64(l, 'M')): v for l, v in zip(r.index.values, lit.array_vals(r.values))}
+                if set(got) != set(spec):
+                    fail = f'labels {sorted(got)}, expected {sorted(spec)}'
+                else:
+                    for k, w in sorted(spec.items()):
+                        v = got[k]
+                        if (w is None and v == v) or (w is not None and v != w):
+                            fail = f'at {k}: {v}, alignment prescribes {"the missing marker" if w is None else w}'
+                            break
+                obs = repr(sorted(got.items()))
+            except Exception as e:  # noqa
+                obs, fail = type(e).__name__, f'raised {type(e).__name__}: {e}'
+            ctx.count('datetime-units')
+            yield Case('api:series-op-series:datetime-units',
+                       {'call': f'Series({xv}, index={xc(xl).__class__.__name__}({xl})) + Series({yv}, index={yc(yl).__class__.__name__}({yl}))',
+                        'case': name, 'observed': obs}, py_fail=fail, tags=tags)
+
+
 def witnesses(ctx):
     """Fixed inputs: one minimal case per known finding (so that every listed finding is re-derived in every run)."""
     import static_frame as sf
@@ -1296,7 +1500,7 @@ def cases(ctx):
     only = os.environ.get('C06_ONLY')          # debugging aid: substring filter on the stratum name
     with warnings.catch_warnings():
         warnings.simplefilter('ignore')
-        for gen in (witnesses, index_exhaustive, index_random, index_hierarchy_cases, hier_shared_cases, nan_label_cases, kernel_set_cases, kernel_correspondence_cases,
+        for gen in (witnesses, index_exhaustive, index_random, index_hierarchy_cases, hier_shared_cases, nan_label_cases, operator_matrix_cases, datetime_unit_cases, kernel_set_cases, kernel_correspondence_cases,
                     malformed_cases, series_exhaustive, series_random, series_scalar_array,
                     frame_layouts_exhaustive, frame_random, frame_series_cases, frame_scalar_array, frame_reindex_cases):
             for c in gen(ctx):
